@@ -162,11 +162,30 @@ def check_program(dk, h, seed_v, acc):
             acc.nontrivial.add(base.stable_hash((dk, h, label)))
 
 
+def extra_calls():
+    """further one-op programs: ufuncs with where= masks (and out= targets) on 0-d and 1-d operands, reductions to 0-d"""
+    import mygrad as mg
+
+    def T(v, dt):
+        return mg.tensor(np.asarray(v, dtype=dt))
+
+    ex = {}
+    for mk, mask in (("0dTrue", lambda: np.array(True)), ("npTrue", lambda: np.True_), ("pyTrue", lambda: True), ("0dFalse", lambda: np.array(False))):
+        ex["exp0d_where_%s_out" % mk] = (lambda mask: lambda dt: (dict(x=T(0.5, dt)), lambda x: mg.exp(x, where=mask(), out=np.zeros((), dtype=x.dtype))))(mask)
+        ex["add0d_where_%s_out" % mk] = (lambda mask: lambda dt: (dict(x=T(0.5, dt), y=T(-1.5, dt)), lambda x, y: mg.add(x, y, where=mask(), out=np.zeros((), dtype=np.result_type(x.dtype, y.dtype)))))(mask)
+        ex["mul0d_where_%s_outT" % mk] = (lambda mask: lambda dt: (dict(x=T(0.5, dt), y=T(-1.5, dt)), lambda x, y: mg.multiply(x, y, where=mask(), out=mg.tensor(np.asarray(2.0, dtype=np.result_type(x.dtype, y.dtype))))))(mask)
+        ex["pos1d_where_%s_out" % mk] = (lambda mask: lambda dt: (dict(x=T([0.5, -1.0], dt)), lambda x: mg.positive(x, where=mask(), out=np.zeros(2, dtype=x.dtype))))(mask)
+    ex["sum_to_0d"] = lambda dt: (dict(x=T([0.5, -1.0], dt)), lambda x: x.sum())
+    ex["mul_0d_1d"] = lambda dt: (dict(x=T(0.5, dt), y=T([1.0, 2.0], dt)), lambda x, y: x * y)
+    return ex
+
+
 def nnet_cells(acc):
     from specs import nnet_calls as nc
 
-    cat = nc.catalogue()
-    for name in nc.NAMES:
+    cat = dict(nc.catalogue())
+    cat.update(extra_calls())
+    for name in list(nc.NAMES) + sorted(extra_calls()):
         for dt in ("float64", "float32", "first32", "rest32"):
             for seedkind in ("absent", "full"):
                 base.reset_mygrad()
